@@ -87,15 +87,19 @@ def block256 (hs : Array UInt32) (m : Bytes) (off : Nat) : Array UInt32 := Id.ru
     a := t1 + t2
   return #[hs[0]! + a, hs[1]! + b, hs[2]! + c, hs[3]! + d, hs[4]! + e, hs[5]! + f, hs[6]! + g, hs[7]! + h]
 
-def sha256 (msg : Bytes) : Bytes := Id.run do
+/-- the hash state after all blocks of the padded message -/
+def sha256State (msg : Bytes) : Array UInt32 := Id.run do
   let m := pad msg
   let mut hs := h256
   for i in [0:m.size / 64] do
     hs := block256 hs m (64 * i)
-  let mut out : Bytes := Array.mkEmpty 32
-  for x in hs do
-    out := pushWord out x
-  return out
+  return hs
+
+/-- the eight state words in big-endian order: 32 octets -/
+def sha256 (msg : Bytes) : Bytes :=
+  let hs := sha256State msg
+  pushWord (pushWord (pushWord (pushWord (pushWord (pushWord (pushWord (pushWord (Array.mkEmpty 32)
+    hs[0]!) hs[1]!) hs[2]!) hs[3]!) hs[4]!) hs[5]!) hs[6]!) hs[7]!
 
 /-! ### SHA-1 (FIPS 180-4 §6.1) -/
 
@@ -126,14 +130,18 @@ def block1 (hs : Array UInt32) (m : Bytes) (off : Nat) : Array UInt32 := Id.run 
     a := tmp
   return #[hs[0]! + a, hs[1]! + b, hs[2]! + c, hs[3]! + d, hs[4]! + e]
 
-def sha1 (msg : Bytes) : Bytes := Id.run do
+/-- the hash state after all blocks of the padded message -/
+def sha1State (msg : Bytes) : Array UInt32 := Id.run do
   let m := pad msg
   let mut hs := h1
   for i in [0:m.size / 64] do
     hs := block1 hs m (64 * i)
-  let mut out : Bytes := Array.mkEmpty 20
-  for x in hs do
-    out := pushWord out x
-  return out
+  return hs
+
+/-- the five state words in big-endian order: 20 octets -/
+def sha1 (msg : Bytes) : Bytes :=
+  let hs := sha1State msg
+  pushWord (pushWord (pushWord (pushWord (pushWord (Array.mkEmpty 20)
+    hs[0]!) hs[1]!) hs[2]!) hs[3]!) hs[4]!
 
 end QV.Sha
